@@ -43,34 +43,46 @@ def hexv(v):
 
 
 def deser(b):
-    """returns value; raises on malformed."""
+    """returns value; raises on malformed.  Iterative (values may be nested thousands deep)."""
     pos = 0
-
-    def rd():
-        nonlocal pos
+    n_total = len(b)
+    # stack of partially built pairs: each frame is a list of the children read so far
+    stack = []
+    while True:
+        if pos >= n_total:
+            raise ValueError("short")
         c = b[pos]
         pos += 1
         if c == 0xff:
-            a = rd()
-            d = rd()
-            return (a, d)
+            stack.append([])
+            continue
         if c == 0x80:
-            return b""
-        if c < 0x80:
-            return bytes([c])
-        k = 0
-        while c & (0x80 >> k):
-            k += 1
-        first = c & (0xff >> k)
-        szb = bytes([first]) + b[pos:pos + k - 1]
-        pos += k - 1
-        n = int.from_bytes(szb, "big")
-        r = b[pos:pos + n]
-        if len(r) != n:
-            raise ValueError("short")
-        pos += n
-        return r
-    return rd()
+            val = b""
+        elif c < 0x80:
+            val = bytes([c])
+        else:
+            k = 0
+            while c & (0x80 >> k):
+                k += 1
+            first = c & (0xff >> k)
+            szb = bytes([first]) + b[pos:pos + k - 1]
+            pos += k - 1
+            n = int.from_bytes(szb, "big")
+            r = b[pos:pos + n]
+            if len(r) != n:
+                raise ValueError("short")
+            pos += n
+            val = bytes(r)
+        # attach the finished value to the innermost open pair(s)
+        while True:
+            if not stack:
+                return val
+            stack[-1].append(val)
+            if len(stack[-1]) == 2:
+                a, d = stack.pop()
+                val = (a, d)
+                continue
+            break
 
 
 def unhex(h):
@@ -91,15 +103,24 @@ def int_atom(n):
     return n.to_bytes(l, "big", signed=True)
 
 
-def show(v):
-    """readable rendering for samples."""
+def show(v, depth=60):
+    """readable rendering for samples (depth-limited: deeper structure is shown as `…`, so
+    a value nested thousands of levels deep can never exhaust the Python stack)."""
     if isinstance(v, tuple):
+        if depth <= 0:
+            return "…"
         items = []
+        n = 0
         while isinstance(v, tuple):
-            items.append(show(v[0]))
+            if n >= 400:
+                items.append("…")
+                v = b""
+                break
+            items.append(show(v[0], depth - 1))
             v = v[1]
+            n += 1
         if v != b"":
-            items += [".", show(v)]
+            items += [".", show(v, depth - 1)]
         return "(" + " ".join(items) + ")"
     if v == b"":
         return "()"
